@@ -12,6 +12,7 @@ LimitPool cases
 SegmentKeysLock cases (keys as hex bytes, `-` = empty key)
     new seg <size>                          => ok
     idx <hex>                               => i=<a> j=<b>     (same contents, two distinct allocations)
+                                            |  blackbox excl=true|false|skip   (stub hooks: no index observable)
     lock <t> <hex>                          => ok probe=<TryRLock right after> | wouldblock
     rlock <t> <hex>                         => ok | wouldblock
     unlock|runlock <t> <hex>                => ok | notheld
@@ -116,7 +117,7 @@ def checker (model : Bool) : Checker where
         let s0 := spawnN cfg (LimitPool.init cfg) nThreads
         let st' := St.limit cfg s0 (LimitPool.Spec.new max)
         if res ≠ "ok" then (st', some s!"constructor failed: {obs}")
-        else if max < 0 ∨ max ≥ 2147483648 then (st', some "maxTokens outside the stated range")
+        else if max < 0 then (st', some "negative maxTokens is outside the property's quantifier")
         else if model && fieldInt obs "tokens" ≠ some s0.tokens.toInt then
           (st', some s!"tokens after NewLimitPool want {s0.tokens.toInt}")
         else (st', none)
@@ -179,6 +180,15 @@ def checker (model : Bool) : Checker where
       | .seg size s held seen =>
         match ws with
         | ["idx", ks] =>
+          -- black-box fallback (the white-box hook did not compile, spec mode only): no index is
+          -- observable; the harness instead reports whether equal contents in distinct allocations
+          -- excluded each other (`excl=true|false|skip`)
+          if res = "blackbox" then
+            if model then (st, some "no white-box index available")
+            else if field obs "excl" == some "false" then
+              (st, some "equal key contents in distinct allocations do not exclude each other (TryLock succeeded on both)")
+            else (st, none)
+          else
           match parseKey ks, fieldNat obs "i", fieldNat obs "j" with
           | some k, some a, some b =>
             if a ≠ b then (st, some s!"equal key contents in distinct allocations map to different locks ({a} and {b})")
